@@ -120,7 +120,7 @@ CLAIMS = {
          "against the scripted server; TLC judges per round: exactly one new session, no extra connection, post-connect once, receiving and "
          "sending on the new connection, resumed when possible, permanent error ends the loop, retries while refused, Stop returns Run.",
     note="Trusted: TLC, the scripted server, bounded waits (6 s for a new session, 0.5 s for 'no further attempt'; back-off delays are tens "
-         "of milliseconds). TLS-policy permanent errors are exercised in C04's model, not here. Every fourth behaviour is also played over the WebSocket "
+         "of milliseconds). Permanent errors here: rejected credentials (with and without text) and a TLS handshake aborted by an alert of the server on a reconnection attempt (STARTTLS scenarios); client-side certificate policy is C04's. Every fourth behaviour is also played over the WebSocket "
          "transport, every ninth with a 15 ms keepalive (stale-keepalive interference), with Stop() called during an outage, and with the manager stopped and run again between losses (Restart action of the model).",
     technique=TECH),
  "C18": dict(
